@@ -119,6 +119,33 @@ RYSphereLnP(L, a, h, T) ==
 Published(family, geo) == IF family = "HK" /\ geo = "slit" THEN "hk-slit"
                           ELSE IF family = "RY" /\ geo = "slit" THEN "ry-slit"
                           ELSE IF family = "RY" /\ geo = "sphere" THEN "ry-sphere" ELSE "none"
+\* ---- Rege & Yang cylinder: population-weighted average over concentric rings of molecule centres -----------------------
+\* Pore of radius L (nucleus to nucleus), ring k = 1, 2, ... has diameter w_k = 2 (L - d0 - (k-1) d_g); the rings that
+\* exist are those with w_k >= 0.  A ring at least one molecule wide holds pi / asin(d_g / w_k) molecules, a narrower one
+\* is a single file on the axis and counts ONE molecule.  Phi/RT = N/(RT) * sum_k n_k phi_k / sum_k n_k.
+\* The per-ring potentials phi_k (an infinite hypergeometric series) and the arcsines are handed in by the harness (the
+\* first from the library's own series routine, q.phi; the second from libm, q.asin); what the specification decides is which
+\* rings exist, which population rule applies to each, and the weighting.  q.K candidate rings are handed in; the
+\* harness must hand in at least one ring beyond the last existing one (complete).
+RYCylJudge(q) ==
+   LET K == Len(q.phi)
+       Wd(k) == DMul(DInt(2), DSub(DSub(q.L, q.d0), DMul(DInt(k - 1), q.dg)))
+       tiny == DMul(DTol(4), q.dg)
+       edge == \E k \in 1..K : DLeq(DAbs(Wd(k)), tiny) \/ DLeq(DAbs(DSub(Wd(k), q.dg)), tiny)
+       Exists(k) == DLeq(DZero, Wd(k))
+       rings == {k \in 1..K : Exists(k)}
+       complete == K >= 1 /\ ~Exists(K) /\ \A k \in 1..K : (Exists(k) => \A j \in 1..k : Exists(j))
+       Pop(k) == IF DLeq(q.dg, Wd(k)) THEN DDiv(Pi, q.asin[k]) ELSE DInt(1)
+       single == {k \in rings : ~DLeq(q.dg, Wd(k))}
+       num == DSum([k \in 1..K |-> IF k \in rings THEN DMul(Pop(k), q.phi[k]) ELSE DZero])
+       den == DSum([k \in 1..K |-> IF k \in rings THEN Pop(k) ELSE DZero])
+       nrt == DDiv(NAvog, DMul(Rgas, q.T))
+       scale == DMul(nrt, SeqMax([k \in 1..K |-> DAbs(q.phi[k])]))
+       phi == IF rings = {} THEN DZero ELSE DMul(nrt, DDiv(num, den))
+   IN [edge |-> edge, complete |-> complete, nrings |-> Cardinality(rings), nsingle |-> Cardinality(single),
+       ok |-> edge \/ ~complete \/ rings = {} \/ DCloseAbs(q.f, phi, DTol(4), DMul(DTol(4), scale)),
+       expected |-> phi]
+
 \* values of Phi/RT the published equation allows at length L (two where L is within 1e-4 of the slit's layer switch)
 PublishedPhi(kind, L, a, h, T) ==
    CASE kind = "hk-slit" -> {SlitLnP(L, a, h, T)}
